@@ -648,6 +648,8 @@ class Evaluator:
     def for_(self, st, fr):
         it = self.expr(st.iter, fr)
         seq = _concrete_iter(it)
+        if seq is None:
+            seq = self._bound_length_iter(it)
         if seq is not None and len(seq) <= MAX_UNROLL:
             done_all = False
             for x in seq:
@@ -670,6 +672,25 @@ class Evaluator:
                     return self.block(st.orelse, fr)
             return done_all
         return self.sym_loop(st, fr, it)
+
+    def _bound_length_iter(self, it):
+        """A symbolic list whose length the region under analysis fixes (ev.bind[len(list)] = n) is iterated as its n
+        elements list[0] .. list[n-1]; reversed(...) and enumerate(...) of such a list likewise."""
+        if not (self.bind and isinstance(it, T)):
+            return None
+        if it.op == "rev":
+            inner = self._bound_length_iter(tm._unfz1(it.args[0])) if isinstance(tm._unfz1(it.args[0]), T) else _concrete_iter(tm._unfz1(it.args[0]))
+            return list(reversed(inner)) if inner is not None else None
+        if it.op == "enumerate" and len(it.args) == 1:
+            a0 = tm._unfz1(it.args[0])
+            inner = self._bound_length_iter(a0) if isinstance(a0, T) else _concrete_iter(a0)
+            return [(i, x) for i, x in enumerate(inner)] if inner is not None else None
+        if tm.tyof(it) not in (tm.LIST, tm.TUPLE):
+            return None
+        n = self.bind.get(tm.length(it)) if isinstance(tm.length(it), T) else None
+        if isinstance(n, int) and not isinstance(n, bool) and 0 <= n <= MAX_UNROLL:
+            return [tm.idx(it, i) for i in range(n)]
+        return None
 
     @staticmethod
     def _norm_while(st):
@@ -1458,10 +1479,18 @@ class Evaluator:
                 return a0
             return T("fmt", (tm._fz(a0), None, -1), tm.STR)  # str(x) and f"{x}" are one term
         if n == "bytes":
-            if isinstance(a0, list) and tm.is_conc(a0):
-                return bytes(a0)
+            seq0 = _concrete_iter(a0) if not isinstance(a0, (bytes, str, dict, range)) else (list(a0) if isinstance(a0, range) else None)
+            if seq0 is not None and all(isinstance(x, int) and not isinstance(x, bool) for x in seq0):
+                try:
+                    return bytes(seq0)
+                except ValueError:
+                    pass
+            if seq0 is not None and seq0 and all(isinstance(x, int) or tm.tyof(x) == tm.INT for x in seq0):
+                return tm.cat([tm.i2b(x, 1, "big") if isinstance(x, T) else bytes([x]) for x in seq0])  # bytes([x]) is the one-byte encoding of x
             if isinstance(a0, int):
                 return bytes(a0)
+            if isinstance(a0, bytes) or tm.tyof(a0) == tm.BYTES:
+                return a0
             return T("tobytes", (tm._fz(a0),), tm.BYTES)
         if n == "range":
             if all(isinstance(p, int) for p in pos):
